@@ -105,6 +105,11 @@ PROSE = {
     "if_then::else_if_then::else_then": [("contrib:if_then::else_if_then::else_then",
                                           "contrib/if_then.hpp: if_then< C, T >::else_if_then< C2, T2 >::else_then< E > = if_then_else< C, T, if_then_else< C2, T2, E > >",
                                           lambda a: _if_then_chain(a))],
+    # longer chains: conditions are tried in the order written (first matching condition commits)
+    "if_then::chain": [("contrib:if_then::chain",
+                        "contrib/if_then.hpp: if_then< C1, T1 >::else_if_then< C2, T2 >::else_if_then< C3, T3 >... [::else_then< E >] = "
+                        "if_then_else< C1, T1, if_then_else< C2, T2, if_then_else< C3, T3, ... E-or-failure > > >",
+                        lambda a: _if_then_chain(a if len(a) % 2 else a + ["failure"]))],
     "if_then::else_if_then": [("contrib:if_then::else_if_then",
                                "contrib/if_then.hpp: if_then< C, T >::else_if_then< C2, T2 > = if_then_else< C, T, if_then_else< C2, T2, failure > >",
                                lambda a: _if_then_chain(a + ["failure"]))],
@@ -129,6 +134,15 @@ def impl_text(name, args):
         return "if_then< %s, %s >::else_if_then< %s, %s >::else_then< %s >" % tuple(args)
     if name == "if_then::else_if_then":
         return "if_then< %s, %s >::else_if_then< %s, %s >" % tuple(args)
+    if name == "if_then::chain":
+        t = "if_then< %s, %s >" % (args[0], args[1])
+        rest = args[2:]
+        while len(rest) >= 2:
+            t += "::else_if_then< %s, %s >" % (rest[0], rest[1])
+            rest = rest[2:]
+        if rest:
+            t += "::else_then< %s >" % rest[0]
+        return t
     if not args:
         return name + "<>" if name in ("string",) else name
     return "%s< %s >" % (name, ", ".join(args))
@@ -467,6 +481,11 @@ def char_groups(tier):
         add("keyword", cs, "ab_1 ", maxlen=4 if tier == "quick" else 5, ctxs=("top", "sor_first"))
     for cs in ([], ["'a'"], ["'a'", "'b'"], ["'a'", "'b'", "'a'"], ["'a'", "'a'", "'b'", "'c'"], ["'\\n'", "'a'"]):
         add("string", cs, "abc" if "'\\n'" not in cs else LN, maxlen=ml, ctxs=three_ctx if len(cs) in (2, 3) else ("top",))
+    # if_then chains with three and four OVERLAPPING conditions (the order of the else_if_then conditions matters)
+    A_, B_, C_ = "one< 'a' >", "one< 'b' >", "one< 'c' >"
+    for args in ([C_, A_, A_, B_, "any", C_], [C_, A_, A_, B_, "any", C_, B_], [C_, A_, "range< 'a', 'b' >", B_, A_, "seq< %s, %s >" % (C_, C_), "any", A_],
+                 ["seq< %s, %s >" % (A_, B_), C_, A_, A_, "not_one< 'c' >", B_, "must< %s >" % C_], [A_, "must< %s >" % B_, "plus< %s >" % A_, C_, "any", "must< %s >" % A_]):
+        add("if_then::chain", args, "abc", maxlen=ml, ctxs=three_ctx, tag="if_then_chain")
     for c in ("'a'", "'\\n'"):
         add("two", [c], "ab" if c == "'a'" else LN, maxlen=ml, ctxs=three_ctx if c == "'a'" else ("top",))
         add("three", [c], "ab" if c == "'a'" else LN, maxlen=ml, ctxs=three_ctx if c == "'a'" else ("top",))
